@@ -38,7 +38,7 @@ PROP = {
              "boundary-biased inputs (0, 1, 10^18 +-1, 10^18/2 ties, 10^36, 2^63, 2^64-1, 2^255 +-1, 2^256-1, 2^314/2^315 Dec guard, primes, "
              "negative values, pools after 0/50/99.99 % slashes, S = 2*P*T tie family, pools outside the exchange-rate guard); results are compared "
              "as value / registered error name / panic. suite ledger: each case = 6..30 operations (Deposit, Delegate, Undelegate, Associate, "
-             "Dissociate, Slash) through the real keepers of one ExocoreApp on 3 operators x 6 stakers x 2 assets, after a regime prelude (pool after "
+             "Dissociate, Slash, NstBalance = UpdateNSTBalance) through the real keepers of one ExocoreApp on 3 operators x 6 stakers x 2 assets, after a regime prelude (pool after "
              "50 %, 99.99 %, 1-10^-18, 100 % slash; 4*10^18-unit pool with 1..3-unit co-delegator; prime amounts), amounts from a boundary pool "
              "(1, position value, value +-1, half, pool amount, primes, 4*10^18+1, 10^30, 0, negative, unknown operator, unregistered chain); two "
              "directed tagged scenarios come first. distinct = distinct sha1 of the case term; non-trivial = at least one accepted share-moving "
@@ -66,6 +66,7 @@ PROP = {
         "x/assets/types/general.go UpdateAsset(Dec)Value, x/operator/keeper/slash.go SlashAssets (pool part) — hand-written Gallina, tied by differential execution",
         "the proportion a slash applies is an input of the model (observed from SlashAssets' execution info; its USD-value computation belongs to C04/C05)",
         "every keeper call is run in a cache context committed only on success (message semantics); partial writes of failing calls are C09's subject",
+        "NstBalance: the staker's pending-undelegation total and TotalDepositAmount before the call are inputs of the model (observed by the harness; undelegation records and the staker-asset ledger belong to C03/C01)",
         "not modelled: undelegation records / completion, hooks of other modules, pending-undelegation amounts, the frozen-operator check (always false in the harness), NST assets",
     ],
     "assumptions": [
